@@ -13,7 +13,7 @@ import xml.etree.ElementTree as ET
 from typing import Collection, Dict, Optional, Iterator, Sequence, Union
 
 from .bounds import Range
-from .edits import AbstractCompoundEdit, Insert, Match, Remove
+from .edits import AbstractCompoundEdit, Insert, Match, Remove, Replace
 from .graphtage import BuildOptions, ContainerNode, DictNode, Filetype, FixedKeyDictNode, KeyValuePairNode, LeafNode, \
     ListNode, StringFormatter, StringNode
 from .json import JSONFormatter
@@ -236,7 +236,9 @@ class XMLElement(ContainerNode):
         return hash(self.children())
 
     def edits(self, node) -> Edit:
-        if self == node:
+        if not isinstance(node, XMLElement):
+            return Replace(self, node)
+        elif self == node:
             return Match(self, node, 0)
         else:
             return XMLElementEdit(self, node)
